@@ -397,7 +397,7 @@ func init() {
 		Prop: "C06", Name: "out/convert", Quick: 80000, Thorough: 800000, Shards: 4,
 		Rule: "(value, target type) conversion requests from the C08 generator: targets with nested optional attributes, dynamic placeholders, kind changes; values with nulls, empty collections, refined unknowns and marks at every depth; every successful result of Convert and of the function returned by GetConversionUnsafe is checked (in particular: no optional-attribute annotations anywhere in the result's type); " + ntRule,
 		Gen: func(t *rapid.T) convgen.Case {
-			return convgen.Pair(convgen.Opts{Type: gen.TypeOpts{Depth: 3, Dynamic: true}, Val: valOpts}).Draw(t, "case")
+			return convgen.Pair(convgen.Opts{Type: gen.TypeOpts{Depth: 3, Dynamic: true, Long: 12}, Val: valOpts}).Draw(t, "case")
 		},
 		Check: func(c *facet.Ctx, in convgen.Case) error {
 			v, err := spec.Build(in.V)
